@@ -2005,6 +2005,13 @@ class Interp:
                 if n.get("ty") == "bool":
                     return BoolV(Or(*[And(c_, self.to_formula(y_)) for c_, y_ in alts_]))
                 return alts_[0][1] if len(alts_) == 1 else PhiV(alts_)
+        # `o.ok_or(e)` on known alternatives: Some(v) -> Ok(v), None -> Err(e)
+        if callee == "std::option::Option::ok_or" and len(args) == 2:
+            flat_ = flatten_phi(args[0])
+            if len(flat_) > 1 and all(isinstance(core(x), StructV) and core(x).variant in ("Some", "None") for _, x in flat_):
+                alts_ = [(c_, StructV("std::result::Result", "Ok", {"0": core(x).fields.get("0", UNIT)}) if core(x).variant == "Some"
+                          else StructV("std::result::Result", "Err", {"0": args[1]})) for c_, x in flat_]
+                return PhiV(alts_)
         # `r.ok()` on a symbolic Result: Some(payload) exactly when r is Ok
         if callee == "std::result::Result::ok" and len(args) == 1 and not isinstance(core(args[0]), (StructV, PhiV)):
             okf_ = atom("variant", core(args[0]).r(), "Ok")
